@@ -92,7 +92,7 @@ structure Valid (c : Cfg) : Prop where
 
 /-- room for one more message, as established by the full test that was passed -/
 def Room (n A D cObs : Nat) (rm : RMode) : Prop :=
-  A + 1 ≤ D + (n - 2) ∧ (rm = .busy → A + 1 ≤ cObs + (n - 2))
+  A + 1 ≤ D + (n - 2) ∧ (rm = .busy → A + 1 ≤ cObs + (n - 2)) ∧ rm ≠ .mutex
 
 /-- what the holder of the write lock knows at each pc (`n` = capacity, `slot` = contents of
 slot `A mod n`, `m` = its message) -/
